@@ -14,28 +14,38 @@ func init() { checks["C03"] = checkC03 }
 type tokCtx struct {
 	name           string
 	prefix, suffix []string
+	load           bool // the tokens are the only file of package main, loaded with Load
 }
 
 func nm(s string) string { return "(name)\x1f" + s }
 func str_(s string) string { return "(string)\x1f" + s }
 
 var tokContexts = []tokCtx{
-	{"top", nil, nil},
-	{"func-body", []string{"func", nm("f"), "(", ")", "{"}, []string{"}"}},
-	{"func-body-result", []string{"func", nm("f"), "(", ")", "int", "{"}, []string{"}"}},
-	{"func-params", []string{"func", nm("f"), "("}, []string{")", "{", "}"}},
-	{"expr", []string{nm("a"), ":="}, nil},
-	{"call-args", []string{nm("a"), ":=", "(int)\x1f1", ";", nm("f"), "("}, []string{")"}},
-	{"struct-type", []string{"type", nm("T"), "struct", "{"}, []string{"}"}},
-	{"switch", []string{"switch", "{"}, []string{"}"}},
-	{"after-import", []string{"import", str_(`"fmt"`), ";"}, nil},
-	{"for", []string{"for"}, []string{"{", "}"}},
-	{"index", []string{nm("a"), ":=", "[]", "int", "{", "(int)\x1f1", "}", ";", nm("a"), "["}, []string{"]"}},
-	{"method", []string{"type", nm("T"), "struct", "{", "}", ";", "func", "(", nm("t"), "*", nm("T"), ")"}, []string{"{", "}"}},
-	{"return", []string{"func", nm("f"), "(", ")", "int", "{", "return"}, []string{"}"}},
+	{"top", nil, nil, false},
+	{"func-body", []string{"func", nm("f"), "(", ")", "{"}, []string{"}"}, false},
+	{"func-body-result", []string{"func", nm("f"), "(", ")", "int", "{"}, []string{"}"}, false},
+	{"func-params", []string{"func", nm("f"), "("}, []string{")", "{", "}"}, false},
+	{"expr", []string{nm("a"), ":="}, nil, false},
+	{"call-args", []string{nm("a"), ":=", "(int)\x1f1", ";", nm("f"), "("}, []string{")"}, false},
+	{"struct-type", []string{"type", nm("T"), "struct", "{"}, []string{"}"}, false},
+	{"switch", []string{"switch", "{"}, []string{"}"}, false},
+	{"after-import", []string{"import", str_(`"fmt"`), ";"}, nil, false},
+	{"for", []string{"for"}, []string{"{", "}"}, false},
+	{"index", []string{nm("a"), ":=", "[]", "int", "{", "(int)\x1f1", "}", ";", nm("a"), "["}, []string{"]"}, false},
+	{"method", []string{"type", nm("T"), "struct", "{", "}", ";", "func", "(", nm("t"), "*", nm("T"), ")"}, []string{"{", "}"}, false},
+	{"return", []string{"func", nm("f"), "(", ")", "int", "{", "return"}, []string{"}"}, false},
+	{"if", []string{"if"}, []string{"{", "}"}, false},
+	{"if-else", []string{"if", "true", "{", "}", "else", "{"}, []string{"}"}, false},
+	{"import-group", []string{"import", "(", nm("x")}, []string{")"}, false},
+	{"case", []string{"switch", nm("a"), "{", "case"}, []string{":", "}"}, false},
+	{"range", []string{"for", nm("k"), ":=", "range"}, []string{"{", "}"}, false},
+	{"map-literal", []string{nm("a"), ":=", "map", "[", "string", "]", "int", "{"}, []string{"}"}, false},
+	{"load-file-start", nil, []string{nm("main")}, true},
+	{"load-after-package", []string{"package", nm("main"), ";"}, nil, true},
+	{"load-import", []string{"package", nm("main"), ";", "import"}, nil, true},
 }
 
-var stageRE = regexp.MustCompile(`^error in (tokenize|parse|loadImports|compile|compile \(imports\)|run|run \(imports\)): `)
+var stageRE = regexp.MustCompile(`^error in (tokenize|parse|load|loadImports|compile|compile \(imports\)|run|run \(imports\)): `)
 
 // tokensToSource renders a forced token sequence as source text for the native replay.
 func tokensToSource(ctx tokCtx, forced []string, lines bool) string {
@@ -128,7 +138,7 @@ func checkC03(tier string, seed int64) int {
 			jobs = append(jobs, job{cx, 0, "full", false}, job{cx, 1, "full", false})
 			if tier == "thorough" {
 				jobs = append(jobs, job{cx, 2, "full", false}, job{cx, 3, "rep", false})
-			} else {
+			} else if len(cx.prefix) <= 6 {
 				jobs = append(jobs, job{cx, 2, "rep", false})
 			}
 		}
@@ -149,7 +159,13 @@ func checkC03(tier string, seed int64) int {
 		rep := c.Eng.ExploreWith(func(ex *gosx.Exec) {
 			ex.InitPackage(c.Eng.Pkg)
 			td, cd, ei := ex.Input("td", gosx.SBool), ex.Input("cd", gosx.SBool), ex.Input("ei", gosx.SBool)
-			res, pan := ex.Call(ex.Func("verifC03Eval"), src, td, cd, ei)
+			var res gosx.Value
+			var pan *gosx.TargetPanic
+			if j.ctx.load {
+				res, pan = ex.Call(ex.Func("verifC03Load"), src, td, cd)
+			} else {
+				res, pan = ex.Call(ex.Func("verifC03Eval"), src, td, cd, ei)
+			}
 			id := "C03/" + j.ctx.name
 			if pan != nil {
 				where := ex.PanicOrigin()
@@ -189,19 +205,72 @@ func checkC03(tier string, seed int64) int {
 			cands = append(cands, cand{j, f, forced})
 		}
 	}
+	// corpus: every string literal of the repository's test files and a sample of generated programs, as whole
+	// source texts through the real tokenizer (natively delegated), with the run options symbolic
+	var corpus []string
+	corpus = append(corpus, testTableSnippets()...)
+	for i, p := range genC06("quick", seed) {
+		if i%40 == 0 {
+			corpus = append(corpus, p.Src)
+		}
+	}
+	for i := 0; i < 12; i++ {
+		corpus = append(corpus, genComposite(i, seed*1000+int64(i)).Src, genCallProg(i, seed*1000+int64(i)).Src, genScopeProg(i, seed*1000+int64(i)).Src)
+	}
+	cagg := NewAgg()
+	parallel(len(corpus), c.Eng.Workers, func(i int) {
+		src := corpus[i]
+		rep := c.Eng.ExploreWith(func(ex *gosx.Exec) {
+			ex.InitPackage(c.Eng.Pkg)
+			td, cd, ei := ex.Input("td", gosx.SBool), ex.Input("cd", gosx.SBool), ex.Input("ei", gosx.SBool)
+			res, pan := ex.Call(ex.Func("verifC03Eval"), src, td, cd, ei)
+			if pan != nil {
+				where := ex.PanicOrigin()
+				ex.Assert(ex.TT().Bool(false), "C03/host-panic/"+where+"/"+panicClass(ex.PanicText(pan)), fmt.Sprintf("a Go panic escapes to the host from %s: %s", where, ex.PanicText(pan)), map[string]interface{}{"src": src})
+				return
+			}
+			if s, ok := gosx.Lit(res); ok && s != "" && stageRE.FindStringSubmatch(s) == nil {
+				ex.Assert(ex.TT().Bool(false), "C03/corpus/stage-prefix", "error without a stage prefix: "+truncate(s, 120), map[string]interface{}{"src": src})
+			}
+		}, "z3", 1)
+		cagg.Add(rep)
+		mu.Lock()
+		seen := map[string]bool{}
+		for _, f := range rep.Failures {
+			if !seen[f.ID] {
+				seen[f.ID] = true
+				cands = append(cands, cand{job{ctx: tokCtx{name: "corpus"}}, f, []string{"SRC:" + src}})
+			}
+		}
+		mu.Unlock()
+	})
+	cagg.Into(c, "corpus_")
+	c.Cov("corpus_sources", len(corpus))
 	// native replay: render the token sequence as source text and run the real Eval
 	parallel(len(cands), 8, func(i int) {
 		cd := cands[i]
 		src := tokensToSource(cd.j.ctx, cd.forced, cd.j.lines)
+		if len(cd.forced) == 1 && strings.HasPrefix(cd.forced[0], "SRC:") {
+			src = cd.forced[0][4:]
+		}
 		var resp struct {
 			HostPanic string
 			Err       string
+			Text      string
 		}
-		out, err := c.Native.RunOnce(map[string]interface{}{"Op": "harness", "Harness": "verifC03Eval", "Src": src, "Vec": cd.f.Model}, &resp, 30)
+		hname := "verifC03Eval"
+		if cd.j.ctx.load {
+			hname = "verifC03Load"
+		}
+		out, err := c.Native.RunOnce(map[string]interface{}{"Op": "harness", "Harness": hname, "Src": src, "Vec": cd.f.Model}, &resp, 30)
 		c.mu.Lock()
 		c.replays++
 		c.mu.Unlock()
 		confirmed := strings.HasPrefix(cd.f.ID, "C03/host-panic/") && (err != nil || resp.HostPanic != "")
+		if strings.HasSuffix(cd.f.ID, "/stage-prefix") && err == nil && resp.HostPanic == "" && resp.Text != "" && stageRE.FindStringSubmatch(resp.Text) == nil {
+			confirmed = true
+			resp.HostPanic = "error without stage prefix: " + truncate(resp.Text, 120)
+		}
 		if !confirmed {
 			c.mu.Lock()
 			c.mismatch++
@@ -214,7 +283,7 @@ func checkC03(tier string, seed int64) int {
 			what = lastLines(out, 2)
 		}
 		c.AddViolation(Violation{Key: cd.f.ID, What: fmt.Sprintf("%s; source %q options %s → %s", cd.f.Msg, src, optString(cd.f.Model), truncate(what, 200)),
-			Replay: map[string]interface{}{"kind": "c03", "src": src, "vec": cd.f.Model, "assertion": cd.f.ID}})
+			Replay: map[string]interface{}{"kind": "c03", "src": src, "vec": cd.f.Model, "harness": hname, "assertion": cd.f.ID}})
 	})
 	agg.Into(c, "")
 	c.Cov("stages_reached", stages)
